@@ -22,5 +22,6 @@ CHECK = {
         {"name": "sched", "pkg": "./checks/c19/sched",
          "sync": ["logutil/slogutil/jsonhybrid.go", "syncutil/pool.go"], "gomaxprocs": 1},
         {"name": "race", "pkg": "./checks/c19/race", "race": True},
+        {"name": "inputs", "pkg": "./checks/c19/inputs"},
     ],
 }
